@@ -76,6 +76,34 @@ def op_case(ctx: Ctx, stream: str, i: int) -> None:
             base = d if d is not None else gen.mk_identity(rng, s)
             op = (2 * base) @ (base.I if d is not None else base) / 2 if v == 1 else base / (value if v != 0 else 2)
         ctx.count(f'special:{kind}:{form}:{v}')
+    elif stream == 'index':
+        # index operators whose integer array is CONCRETE when applied eagerly and TRACED when the operator is a jit
+        # argument: value-dependent shortcuts would make the modes disagree.  Arrays that look like a range from
+        # their end points (a permutation or a repeat inside a..b), sorted runs, scattered values, negative aliases.
+        from furax._base.indices import IndexOperator
+        nd = rng.choice([1, 2])
+        n = rng.choice([4, 5, 6])
+        shape = (n,) if nd == 1 else rng.choice([(n, 3), (2, n)])
+        axis = 0 if shape[0] == n else 1
+        s = jax.ShapeDtypeStruct(shape, jnp.float32)
+        a = rng.randint(0, n - 3)
+        b = rng.randint(a + 2, n - 1)
+        mid = list(range(a + 1, b))
+        rng.shuffle(mid)
+        form = rng.choice(['range-permuted', 'range-with-repeat', 'sorted-run', 'scattered', 'reversed'])
+        if form == 'range-with-repeat' and mid:
+            mid[rng.randrange(len(mid))] = rng.choice([a, b] + mid)
+        vals = {'range-permuted': [a] + mid + [b], 'range-with-repeat': [a] + mid + [b],
+                'sorted-run': list(range(a, b + 1)), 'reversed': list(range(b, a - 1, -1)),
+                'scattered': [rng.randint(-n, n - 1) for _ in range(rng.randint(2, n))]}[form]
+        arr = jnp.asarray(np.asarray(vals, dtype=np.int32))
+        indices = (arr,) if axis == 0 else (slice(None), arr)
+        if axis == 0 and nd == 2 and rng.random() < 0.5:
+            indices = (arr, Ellipsis)
+        op = IndexOperator(indices, in_structure=s)
+        if rng.random() < 0.4:
+            op = op.T
+        ctx.count('index-form:' + form)
     elif stream == 'inverse':
         # a lazy inverse (iterative solve needing several steps), alone or inside a composition
         s = gen.S(rng.choice([5, 6, 8]))
@@ -250,6 +278,9 @@ def run(ctx: Ctx) -> None:
     for i in range(120 if q else 2500):
         if ctx.want('special', i):
             op_case(ctx, 'special', i)
+    for i in range(60 if q else 1500):
+        if ctx.want('index', i):
+            op_case(ctx, 'index', i)
     for i in range(16 if q else 300):
         if ctx.want('inverse', i):
             op_case(ctx, 'inverse', i)
